@@ -159,8 +159,19 @@ def features(items):
 
     def block(body, path, scopes, bind=()):
         scopes.append(set(bind))
+        in_loop = False
+        for p in reversed(path):
+            if p in ("while", "for"):
+                in_loop = True
+                break
+            if p == "closure" or p.startswith("fun:"):
+                break
+        jump_seen = False
         for s in body:
+            if in_loop and jump_seen and s[0] in ("While", "For"):
+                feats.add("loop-after-jump")       # a loop statement is pending when the jump runs
             expr(s, path, scopes)
+            jump_seen = jump_seen or jumps_out(s)
         scopes.pop()
 
     top = [set()]
@@ -173,14 +184,36 @@ def features(items):
     return tuple(sorted(feats))
 
 
+def jumps_out(t):
+    """Does this statement contain a break/continue that targets a loop around it (not one inside it)?"""
+    if isinstance(t, tuple):
+        if t and t[0] in ("Break", "Continue"):
+            return True
+        if t and t[0] in ("While", "For", "Lambda"):
+            return False
+        return any(jumps_out(x) for x in t)
+    if isinstance(t, list):
+        return any(jumps_out(x) for x in t)
+    return False
+
+
+def diff_kind(ref_out, garden_out):
+    a, b = ref_out.split("\n"), garden_out.split("\n")
+    if len(b) > len(a):
+        return "garden prints more lines"
+    if len(b) < len(a):
+        return "garden prints fewer lines"
+    return "garden prints different values"
+
+
 # --------------------------------------------------------------------------- producer (generation + reference run), optionally in a child process
 
-def produce(level, depth, shard, emit):
-    """Generate every program of exactly this size (this shard of them), re-check the fragment rules, run the
-    reference, and hand over chunks of (src, cost, ref_kind, ref_stdout, ref_steps, features, stats)."""
+def produce(level, depth, groups, emit):
+    """Generate every program of exactly this size (of these function groups), re-check the fragment rules, run
+    the reference, and hand over chunks of (src, cost, ref_kind, ref_stdout, ref_steps, features, stats)."""
     g = coregen.Gen()
     buf = []
-    for items, cost in g.programs(level, depth, exact=level, shard=shard):
+    for items, cost in g.programs(level, depth, exact=level, groups=groups):
         coregen.check_fragment(items)
         ref = refint.run_program(items, step_limit=REF_STEPS)
         st = ref["stats"]
@@ -193,24 +226,28 @@ def produce(level, depth, shard, emit):
         emit(buf)
 
 
-def _child(q, level, depth, shard):
+def _child(q, level, depth, groups):
     try:
-        produce(level, depth, shard, lambda buf: q.put(("chunk", buf)))
-        q.put(("done", shard))
+        produce(level, depth, groups, lambda buf: q.put(("chunk", buf)))
+        q.put(("done", groups))
     except BaseException as e:      # reported to the parent as a machinery problem
         q.put(("error", f"{type(e).__name__}: {e}"))
 
 
 def chunks(level, depth, nproc):
-    """Iterator over chunks of one level; with nproc > 1 the level is split over child processes."""
-    if nproc <= 1:
+    """Iterator over chunks of one level; with nproc > 0 the level is generated by child processes (split by
+    function group) while the parent runs the programs."""
+    if nproc <= 0:
         out = []
-        produce(level, depth, None, out.append)
+        produce(level, depth, coregen.GROUPS, out.append)
         yield from out
         return
+    # the group without functions is about half of a level, the one with both functions the smallest
+    split = {1: [coregen.GROUPS], 2: [((), ("f", "h")), (("f",), ("h",))], 3: [((),), (("f",), ("f", "h")), (("h",),)],
+             4: [(g,) for g in coregen.GROUPS]}[nproc]
     mp = multiprocessing.get_context("fork")
     q = mp.Queue(maxsize=2 * nproc)
-    procs = [mp.Process(target=_child, args=(q, level, depth, (j, nproc)), daemon=True) for j in range(nproc)]
+    procs = [mp.Process(target=_child, args=(q, level, depth, gs), daemon=True) for gs in split]
     for p in procs:
         p.start()
     done = 0
@@ -247,7 +284,7 @@ def run(ctx):
     ctx.bound("statements_per_block", coregen.MAX_BLOCK)
     ctx.bound("tick_limit", TICK_LIMIT)
     ctx.bound("reference_step_limit", REF_STEPS)
-    nproc = max(1, min(4, NCPU // 4))
+    nproc = max(1, min(4, NCPU // 3))
 
     failures = {}        # (what, features) -> {"count", "best": (cost, len, src), "detail"}
     totals = dict.fromkeys(STAT_KEYS, 0)
@@ -266,7 +303,7 @@ def run(ctx):
 
     for level in range(1, size + 1):
         n_level = 0
-        for chunk in chunks(level, depth, nproc if level == size else 1):
+        for chunk in chunks(level, depth, nproc if level >= size - 1 and level >= 4 else 0):
             jobs = [{"op": "run", "src": c[0], "tick_limit": TICK_LIMIT} for c in chunk]
             res = ctx.pool.map(jobs, batch=48, timeout=20)
             n_prog += len(chunk)
@@ -311,12 +348,13 @@ def run(ctx):
                     fail(f"outcome differs (reference {rk}, garden {gk})", feats, cost, src,
                          {"src": src, "reference": {"kind": rk, "stdout": rout}, "garden": {"kind": gk, "message": r["outcome"].get("message"), "stdout": r["stdout"]}})
                 elif r["stdout"] != rout:
-                    fail("stdout differs", feats, cost, src,
+                    fail("stdout differs, " + diff_kind(rout, r["stdout"]), feats, cost, src,
                          {"src": src, "outcome": rk, "reference_stdout": rout, "garden_stdout": r["stdout"]})
-                # samples: per outcome kind the last seen of the largest size that loops and calls, else any
+                # samples: per outcome kind a program of the largest size that loops and calls, if any
                 rich = bool(st[0] and (st[1] or st[2]))
-                if rk not in samples or (rich, cost) >= samples[rk][0]:
-                    samples[rk] = ((rich, cost), {"src": src, "size": cost, "outcome": rk, "stdout": rout, "ticks": r.get("ticks"), "reference_steps": rsteps})
+                skey = (rich, cost, -len(src), src)       # deterministic whatever the arrival order of chunks
+                if rk not in samples or skey > samples[rk][0]:
+                    samples[rk] = (skey, {"src": src, "size": cost, "outcome": rk, "stdout": rout, "ticks": r.get("ticks"), "reference_steps": rsteps})
         per_level[level] = n_level
         if not n_level:
             raise Machinery(f"no program of size {level}")
@@ -330,7 +368,9 @@ def run(ctx):
         for fs, feats, f in sorted(minimal, key=lambda x: x[1]):
             sig = f"{what}: features={'+'.join(feats)}"
             n = sum(g["count"] for gs, _, g in lst if fs <= gs)
-            detail = dict(f["detail"], programs_with_a_superset_of_these_features_that_fail=n, size=f["best"][0])
+            extra = sorted({"+".join(sorted(gs - fs)) for gs, _, g in lst if fs < gs})
+            detail = dict(f["detail"], programs_with_a_superset_of_these_features_that_fail=n, size=f["best"][0],
+                          additional_features_of_those_programs=extra[:40])
             ctx.violation(sig, detail, cli_cmd="garden run <file with src>")
             ctx.violations[sig]["count"] = n
     # ---- CLI confirmation of (up to 20) reported programs
